@@ -64,8 +64,50 @@ def models(wd, tier, seed):
 FAM = dict(driver="csync", specdirs=["csync", "lib"], monitor="CsyncPTrace", property_of=PROPERTY_OF, models=models,
            n_random={"quick": 4000, "thorough": 300000},
            x_specs=["csync/Mutex.tla", "csync/RWMutex.tla"], p_monitor="csync/CsyncP.tla",
+           advisory=lambda wd, binp, seed, tier: x_conformance(wd, binp, seed, SCEN["quick"], nrand=100 if tier == "quick" else 2000),
            assumptions=["CsyncP encodes the statement (DESIGN §3 C01/C02 interpretation): 'waiting writer' = observed blocked"])
 
 
 def run(prop, tier, seed):
     return vlib.standard_check(prop, tier, seed, FAM)
+
+
+# --------------------------------------------------------------------------- advisory X-level conformance
+
+def x_conformance(wd, binp, seed, names, nrand=150):
+    """Replays executions of each scenario (TLC schedules + seeded random schedules on the same scenario,
+    controller steps logged) through the X spec itself (<Base>XTrace.tla). Returns a summary dict; never a verdict."""
+    import subprocess, shutil
+    total = dict(traces=0, events=0, drift=0, samples=[])
+    for name in names:
+        sc = json.load(open(scen_path(name)))
+        base = "Mutex" if sc["kind"] == "mutex" else "RWMutex"
+        scheds = [{"name": "%s/x%d" % (name, i), "scenario": sc, "labels": []} for i in range(nrand)]
+        sf = os.path.join(wd, "x-%s-scheds.json" % name)
+        json.dump(scheds, open(sf, "w"))
+        tf = os.path.join(wd, "x-%s.ndjson" % name)
+        stf = os.path.join(wd, "x-%s.stats.json" % name)
+        p = subprocess.run([binp, "-test.run", "^TestRun$", "-driver", "csync", "-out", tf, "-stats", stf, "-sched", sf, "-seed", str(seed), "-logsteps"],
+                           cwd=wd, capture_output=True, text=True)
+        if p.returncode != 0:
+            total["samples"].append("%s: harness failed" % name)
+            continue
+        d = vlib.spec_scratch(wd, "x-" + name, ["csync", "lib"])
+        prog = [[dict(op=o["op"], w=bool(o.get("w", False)) or sc["kind"] == "mutex", c=bool(o.get("c", False)), k=o.get("k", 0) + 1) for o in cl] for cl in sc["clients"]]
+        consts = ["Prog <- ScProg", "EagerWake = FALSE"] + (["FixF1 = %s" % ("TRUE" if FIX_F1 else "FALSE")] if base == "RWMutex" else [])
+        vlib.write_mc(d, "MCX", base + "XTrace", ["ScProg == " + vlib.json2tla(prog)],
+                      ["INIT TInit", "NEXT TNext", "CHECK_DEADLOCK FALSE", "CONSTANTS"] + [" " + c for c in consts])
+        vf = os.path.join(d, "verdict.json")
+        r = vlib.run_tlc(d, "MCX", "MCX.cfg", workers=1, timeout=300,
+                         env={"TRACE_FILE": tf, "VERDICT_FILE": vf,
+                              "JAVA_TOOL_OPTIONS": "-DTLA-Library=%s -Xmx3g -Xss256m -Dtlc2.tool.impl.Tool.cdot=true" % vlib.TLA_LIB})
+        if not os.path.exists(vf):
+            total["samples"].append("%s: X-trace validation did not finish: %s" % (name, r["error"]))
+            continue
+        v = json.load(open(vf))
+        total["traces"] += nrand
+        total["events"] += v["total"]
+        total["drift"] += len(v["drift"])
+        total["samples"] += ["%s: %s" % (name, json.dumps(x)) for x in v["drift"][:2]]
+        shutil.rmtree(d, ignore_errors=True)
+    return total
